@@ -6,13 +6,20 @@
 
       - Part 1: the instances [sr0 .. sr3], each by ONE application of [map_sr]; their
         specifications are (by conversion) [ospec_of], [mapor_spec_nk_of], [map2_spec_nk_of] and
-        [map3_spec_nk_of]; the list-level content of [nk_apply_fresh]/[nk_merge] (depth 1),
-        [n2_apply_fresh]/[n2_merge] (depth 2) and the new depth-3 lemmas [n3_apply_fresh]/[n3_merge]
-        are the fields [vapply_fresh]/[vmerge_spec] of [sr1], [sr2], [sr3];
-      - Part 2: the reach level re-derived at depths 1 and 2 from [map_sr_refine]
-        ([mapor_refine_nk'], [map2_refine_nk']);
+        [map3_spec_nk_of]; the side conditions of the functor are those of the existing files
+        ([nk_ops_tagged], [nk_univ_muniv]: [nk_univ U ↔ muniv sr0 (λ _, True) U]; [n2_ops_tagged],
+        [n2_univ_muniv]: [n2_univ U ↔ muniv sr1 (λ _, True) U]), so the list-level statements of
+        [nk_apply_fresh]/[nk_merge] (depth 1) and [n2_apply_fresh]/[n2_merge] (depth 2) are
+        re-derived verbatim from the fields [vapply_fresh]/[vmerge_spec] of [sr1], [sr2]
+        ([nk_apply_fresh'], [nk_merge'], [n2_apply_fresh'], [n2_merge']), and the new depth-3
+        lemmas [n3_apply_fresh]/[n3_merge]/[n3_reset_inert] from those of [sr3];
+      - Part 2: the ops generated at specification states are new ops of the universe
+        ([mogen_nk_new], [m2gen_nk_new]); the reach level re-derived at depths 1 and 2 from
+        [map_sr_refine] ([mapor_refine_nk'], [map2_refine_nk']);
       - Part 3: depth 3: commands, [m3gen_nk], [m3reach_nk], [m3hist_ok_nk], [map3_spec_nk],
-        [map3_refine_nk], corollaries, closed example. *)
+        [m3gen_nk_new], [map3_refine_nk], corollaries (instances of the generic corollaries of
+        proofs/MapNKFunctor.v), the innermost set and the member sentence (C05 at depth 3), closed
+        example. *)
 From stdpp Require Import gmap.
 From Crdt Require Import proofs.VClock proofs.Reset proofs.OrswotLayer
   proofs.OrswotL1 proofs.OrswotL2a proofs.OrswotL2 proofs.OrswotSystem proofs.MapFacts proofs.MapKeys
@@ -70,25 +77,25 @@ Proof.
   - intros Hs [c ks|d k o] Hin; destruct (Hs _ Hin) as [d0 Ho]; [done|]. destruct Ho as [<- Ho].
     by apply (nk_op_tag d k o).
 Qed.
-(** a universe of the functor is a universe of proofs/MapOrswotNK.v; the converse needs the nested
-    remove contexts to be made of dots of nested ADDS under the key (as they are in generated
-    histories), not just of dots of updates of the key *)
-Lemma muniv_nk_univ U : muniv sr0 U → nk_univ U.
+(** the universes of the functor at depth 1 are exactly the universes [nk_univ] of
+    proofs/MapOrswotNK.v (whose update dots lie in the ambient set) *)
+Lemma muniv_nk_univ A U : muniv sr0 A U ↔ nk_univ U ∧ dots_in mdot A U.
 Proof.
-  intros (Hs & Hp & Hk). split_and!; [by apply nk_ops_tagged|done|].
-  intros d k c ms Hin a Ha.
-  assert (ORm c ms ∈ mproj U k) as Hin' by (apply elem_of_mproj; by exists d).
-  destruct (proj1 (Hk k) c ms Hin') as [_ Hc]. destruct (Hc a Ha) as (o & Ho & Hd).
-  exists o. by apply (mproj_up sr0).
+  split.
+  - intros HU. split; [|by apply (mu_dots sr0 A U)]. destruct HU as (Hs & Hp & Hk).
+    split_and!; [by apply nk_ops_tagged|intros d k o Hin; by destruct (Hp d k o Hin)|].
+    intros d k c ms Hin.
+    assert (ORm c ms ∈ mproj U k) as Hin' by (apply elem_of_mproj; by exists d).
+    by destruct (proj1 (Hk k) c ms Hin') as [_ Hc].
+  - intros [(Hs & Hp & Hc) HA]. split_and!; [by apply nk_ops_tagged| |].
+    + intros d k o Hin. split; [by eapply Hp|by eapply (HA (MUp d k o))].
+    + intros k. split.
+      * intros c ms [d Hin]%elem_of_mproj. split; [exact (Hs _ Hin)|by eapply Hc].
+      * intros d ms [d0 Hin]%elem_of_mproj. pose proof (Hs _ Hin) as Ho. cbn in Ho. subst d0.
+        split; [by eapply Hp|by exists (OAdd d ms)].
 Qed.
-Lemma nk_univ_muniv U : nk_univ U →
-  (∀ d k c ms, MUp d k (ORm c ms) ∈ U → dclk odot (mproj U k) c) → muniv sr0 U.
-Proof.
-  intros (Hs & Hp & _) Hc. split_and!; [by apply nk_ops_tagged|done|].
-  intros k. split.
-  - intros c ms [d Hin]%elem_of_mproj. split; [exact (Hs _ Hin)|by eapply Hc].
-  - intros d ms [d0 Hin]%elem_of_mproj. pose proof (Hs _ Hin) as Ho. cbn in Ho. subst d0. by eapply Hp.
-Qed.
+Lemma nk_univ_muniv U : nk_univ U ↔ muniv sr0 (λ _, True) U.
+Proof. rewrite muniv_nk_univ. split; [by split|by intros [? _]]. Qed.
 
 (** the list-level content of [nk_apply_fresh] and [nk_merge], from the functor *)
 Theorem nk_apply_fresh' os d k o :
@@ -98,9 +105,11 @@ Proof.
   intros [Hs Hn]%nk_ops_app Hf. apply (vapply_fresh sr1 os d (MUp d k o)); [by apply nk_ops_tagged| |done].
   apply nk_ops_tagged in Hn. destruct (Hn (MUp d k o)) as [d' [-> Ht]]; [by left|]. by split.
 Qed.
-Theorem nk_merge' U os1 os2 : muniv sr0 U → nk_side U os1 → nk_side U os2 →
+Theorem nk_merge' U os1 os2 : nk_univ U → nk_side U os1 → nk_side U os2 →
   mmerge vo1 (mapor_spec_nk_of os1) (mapor_spec_nk_of os2) = mapor_spec_nk_of (os1 ++ os2).
-Proof. intros HU HS1 HS2. apply (vmerge_spec sr1 U os1 os2 HU); by apply mside_gside. Qed.
+Proof.
+  intros HU%nk_univ_muniv HS1 HS2. apply (vmerge_spec sr1 (λ _, True) U os1 os2 HU); by apply mside_gside.
+Qed.
 
 (** ** depth 2: the side conditions of proofs/MapMapOrswotNK.v *)
 Lemma n2_ops_tagged os : n2_ops os ↔ mtagged sr1 os.
@@ -113,12 +122,17 @@ Proof.
     destruct o as [c ks|d1 k2 o1]; [done|]. destruct Ho as [-> Ho]. split; [done|].
     by apply (nk_op_tag d k2 o1).
 Qed.
-Lemma muniv_n2_univ U : muniv sr1 U → n2_univ U.
+(** ... and at depth 2 exactly the universes [n2_univ] of proofs/MapMapOrswotNK.v *)
+Lemma n2_univ_muniv U : n2_univ U ↔ muniv sr1 (λ _, True) U.
 Proof.
-  intros (Hs & Hp & Hk). split_and!; [by apply n2_ops_tagged|done|].
-  intros d k1 d' k2 c ms Hin.
-  assert (MUp d' k2 (ORm c ms) ∈ m2_proj U k1) as Hin' by (apply elem_of_m2_proj; by exists d).
-  destruct (muniv_nk_univ _ (Hk k1)) as (_ & _ & Hc). by eapply Hc.
+  split.
+  - intros HU. pose proof HU as (Hs & Hp & Hc). split_and!; [by apply n2_ops_tagged|by split; [eapply Hp|]|].
+    intros k1. apply muniv_nk_univ. split; [by apply n2_proj_univ|].
+    intros [c ks|d' k2 o] d Hin [= <-]. exists (MUp d' k2 o). by apply (n2_proj_up U k1 d' k2 o Hs).
+  - intros (Hs & Hp & Hk). split_and!; [by apply n2_ops_tagged|intros d k o Hin; by destruct (Hp d k o Hin)|].
+    intros d k1 d' k2 c ms Hin.
+    assert (MUp d' k2 (ORm c ms) ∈ m2_proj U k1) as Hin' by (apply elem_of_m2_proj; by exists d).
+    destruct (proj1 (muniv_nk_univ _ _) (Hk k1)) as [(_ & _ & Hc) _]. by eapply Hc.
 Qed.
 Theorem n2_apply_fresh' os d k o :
   n2_ops (os ++ [MUp d k o]) → vget (mspec_clock os) (dactor d) < dcounter d →
@@ -127,9 +141,11 @@ Proof.
   intros [Hs Hn]%n2_ops_app Hf. apply (vapply_fresh sr2 os d (MUp d k o)); [by apply n2_ops_tagged| |done].
   apply n2_ops_tagged in Hn. destruct (Hn (MUp d k o)) as [d' [-> Ht]]; [by left|]. by split.
 Qed.
-Theorem n2_merge' U os1 os2 : muniv sr1 U → gside U os1 → gside U os2 →
+Theorem n2_merge' U os1 os2 : n2_univ U → gside U os1 → gside U os2 →
   mmerge vo2 (map2_spec_nk_of os1) (map2_spec_nk_of os2) = map2_spec_nk_of (os1 ++ os2).
-Proof. intros HU HS1 HS2. apply (vmerge_spec sr2 U os1 os2 HU); by apply mside_gside. Qed.
+Proof.
+  intros HU%n2_univ_muniv HS1 HS2. apply (vmerge_spec sr2 (λ _, True) U os1 os2 HU); by apply mside_gside.
+Qed.
 
 (** ** depth 3 (new): L1 and L2 on op lists *)
 Theorem n3_apply_fresh os d k o :
@@ -139,12 +155,12 @@ Proof.
   intros [Hs Hn]%mtagged_app Hf. apply (vapply_fresh sr3 os d (MUp d k o)); [done| |done].
   destruct (Hn (MUp d k o)) as [d' [-> Ht]]; [by left|]. by split.
 Qed.
-Theorem n3_merge U os1 os2 : muniv sr2 U → gside U os1 → gside U os2 →
+Theorem n3_merge A U os1 os2 : muniv sr2 A U → gside U os1 → gside U os2 →
   mmerge vo3 (map3_spec_nk_of os1) (map3_spec_nk_of os2) = map3_spec_nk_of (os1 ++ os2).
-Proof. intros HU HS1 HS2. apply (vmerge_spec sr3 U os1 os2 HU); by apply mside_gside. Qed.
-Theorem n3_reset_inert U os r : muniv sr2 U → gside U os → (∀ x, dclk mdot U x → inert x r) →
+Proof. intros HU HS1 HS2. apply (vmerge_spec sr3 A U os1 os2 HU); by apply mside_gside. Qed.
+Theorem n3_reset_inert A U os r : muniv sr2 A U → gside U os → (∀ x, aclk A x → inert x r) →
   mreset vo3 (map3_spec_nk_of os) r = map3_spec_nk_of os.
-Proof. intros HU HS Hr. apply (vreset_inert sr3 U os r HU); [by apply mside_gside|done]. Qed.
+Proof. intros HU HS Hr. apply (vreset_inert sr3 A U os r HU); [by apply mside_gside|done]. Qed.
 
 (** * Part 2: the ops generated at specification states are new ops of the universe *)
 
@@ -153,62 +169,66 @@ Lemma derive_add_dot_pos {V} (s : cmap V) a : 0 < dcounter (ac_dot (derive_add_c
 Proof. unfold derive_add_ctx, mread_ctx, vinc, dinc, VClock.vdot. cbn. lia. Qed.
 
 (** the innermost step, shared by all depths: the nested Orswot op generated by the add / remove
-    closure at the Orswot specification of a side is a new op *)
-Lemma ogen_add_new P (ctx : addctx) ms : 0 < dcounter (ac_dot ctx) →
-  onewop P (ac_dot ctx) (oadd_all ms ctx).
-Proof. intros Hp. by split. Qed.
-Lemma ogen_rm_new_read P p d ms : sside odot P p →
-  onewop P d (orm_all ms (derive_rm_ctx (oread_ctx (ospec_of p)))).
+    closure at the Orswot specification of a side of the universe under key [k] is a new op *)
+Lemma ogen_add_new (U : list op1) k (ctx : addctx) ms : 0 < dcounter (ac_dot ctx) →
+  onewop (kdom (U ++ [MUp (ac_dot ctx) k (oadd_all ms ctx)]) k) (mproj U k) (ac_dot ctx) (oadd_all ms ctx).
+Proof. intros Hp. split; [done|split; [done|apply kdom_snoc]]. Qed.
+Lemma odclk_kdom (U : list op1) o k x : mtagged sr0 U → dclk odot (mproj U k) x → aclk (kdom (U ++ [o]) k) x.
 Proof.
-  intros HS. cbn [onewop orm_all derive_rm_ctx rm_clock oread_ctx oclock ospec_of].
-  split; [apply ospec_clock_wf|by apply odclk_clock].
+  intros Hs Hx a Ha. destruct (Hx a Ha) as (o' & Ho & Hd). apply kdom_app_l. exists o'. by apply (mproj_up sr0).
 Qed.
-Lemma ogen_rm_new_contains P p d ms m' : sside odot P p →
-  onewop P d (orm_all ms (derive_rm_ctx (ocontains (ospec_of p) m'))).
+Lemma ogen_rm_new_read (U : list op1) o k p d ms : mtagged sr0 U → sside odot (mproj U k) p →
+  onewop (kdom (U ++ [o]) k) (mproj U k) d (orm_all ms (derive_rm_ctx (oread_ctx (ospec_of p)))).
 Proof.
-  intros HS. cbn [onewop orm_all derive_rm_ctx rm_clock ocontains oentries ospec_of].
-  rewrite ospec_entries_default. split; [apply ospec_entry_wf|by apply odclk_entry].
+  intros Hs HS. cbn [onewop orm_all derive_rm_ctx rm_clock oread_ctx oclock ospec_of].
+  split; [apply ospec_clock_wf|]. by apply odclk_kdom, odclk_clock.
 Qed.
-
-(** projecting a side / a universe of depth [n+1] gives a side / a universe of depth [n] *)
-Lemma gside_proj {V O E} {vo : valops V O E} (X : sparse_ref vo) U os k :
-  muniv X U → gside U os → sside (vodot X) (mproj U k) (mproj os k).
-Proof. intros HU HS. by apply (mside_proj X U HU). Qed.
+Lemma ogen_rm_new_contains (U : list op1) o k p d ms m' : mtagged sr0 U → sside odot (mproj U k) p →
+  onewop (kdom (U ++ [o]) k) (mproj U k) d (orm_all ms (derive_rm_ctx (ocontains (ospec_of p) m'))).
+Proof.
+  intros Hs HS. cbn [onewop orm_all derive_rm_ctx rm_clock ocontains oentries ospec_of].
+  rewrite ospec_entries_default. split; [apply ospec_entry_wf|]. by apply odclk_kdom, odclk_entry.
+Qed.
 
 (** ** depth 1, re-derived *)
-Lemma mogen_nk_new U os a c o : muniv sr0 U → gside U os →
-  mogen_nk (mspec_nk_of sr0 os) a c = Some o → ∃ d, mnewop sr0 U d o.
+Lemma mogen_nk_new U os a c o : muniv sr0 (λ _, True) U → gside U os →
+  mogen_nk (mspec_nk_of sr0 os) a c = Some o → ∃ d, mnewop sr0 (λ _, True) U d o.
 Proof.
   intros HU HS Hgen. unfold mogen_nk, mogen in Hgen.
   set (ctx := derive_add_ctx (mread_ctx (mspec_nk_of sr0 os)) a) in *.
   assert (0 < dcounter (ac_dot ctx)) as Hp by apply derive_add_dot_pos.
-  pose proof (gside_proj sr0 U os) as HP.
+  pose proof (mside_proj sr0 _ U HU os) as HP. pose proof (proj1 HU) as Hs.
   destruct c as [k ms|k ms [m'|]|ks src]; cbn [mo_nokrm mo_cmd mgen] in Hgen; [| | |done]; injection Hgen as <-;
-    exists (ac_dot ctx); unfold mupdate; fold ctx; cbn beta; rewrite ?(mspec_nested sr0); (split; [done|split; [done|]]).
+    exists (ac_dot ctx); unfold mupdate; fold ctx; cbn beta; rewrite ?(mspec_nested sr0);
+    (apply (mnewop_up sr0); [done|done|]).
   - by apply ogen_add_new.
-  - apply ogen_rm_new_contains. by apply HP.
-  - apply ogen_rm_new_read. by apply HP.
+  - apply ogen_rm_new_contains; [done|by apply HP].
+  - apply ogen_rm_new_read; [done|by apply HP].
 Qed.
 Theorem mapor_refine_nk' (H : list (oprec op1)) : mohist_ok_nk H →
   ∀ (s : map1) (K : gset nat), moreach_nk H s K → s = mapor_spec_nk H K.
 Proof. apply (map_sr_refine sr0 mogen_nk mo_cmd mogen_nk_mgen mogen_nk_new). Qed.
 
 (** ** depth 2, re-derived *)
-Lemma m2gen_nk_new U os a c o : muniv sr1 U → gside U os →
-  m2gen_nk (mspec_nk_of sr1 os) a c = Some o → ∃ d, mnewop sr1 U d o.
+Lemma m2gen_nk_new U os a c o : muniv sr1 (λ _, True) U → gside U os →
+  m2gen_nk (mspec_nk_of sr1 os) a c = Some o → ∃ d, mnewop sr1 (λ _, True) U d o.
 Proof.
   intros HU HS Hgen. unfold m2gen_nk, m2gen in Hgen.
   set (ctx := derive_add_ctx (mread_ctx (mspec_nk_of sr1 os)) a) in *.
   assert (0 < dcounter (ac_dot ctx)) as Hp by apply derive_add_dot_pos.
+  assert (∀ k1, muniv sr0 (kdom U k1) (mproj U k1)) as HU1 by apply HU.
+  assert (∀ k1, gside (mproj U k1) (mproj os k1)) as HS1.
+  { intros k1. apply mside_gside. by apply (mside_proj sr1 _ U HU). }
   assert (∀ k1 k2, sside odot (mproj (mproj U k1) k2) (mproj (mproj os k1) k2)) as HP.
-  { intros k1 k2. apply (gside_proj sr0); [apply HU|]. apply mside_gside. by apply (gside_proj sr1). }
+  { intros k1 k2. by apply (mside_proj sr0 _ _ (HU1 k1)). }
   destruct c as [k1 k2 ms|k1 k2 ms [m'|]|k1 ks src|ks src]; cbn [m2_nokrm m2_cmd mgen] in Hgen;
     [| | |done|done]; injection Hgen as <-;
-    exists (ac_dot ctx); unfold mupdate; fold ctx; cbn beta; rewrite ?(mspec_nested sr1); change (vspec sr1) with (mspec_nk_of sr0); rewrite ?(mspec_nested sr0);
-    (split; [done|split; [done|]]); (split; [done|split; [done|]]).
+    exists (ac_dot ctx); unfold mupdate; fold ctx; cbn beta;
+    rewrite ?(mspec_nested sr1); change (vspec sr1) with (mspec_nk_of sr0); rewrite ?(mspec_nested sr0);
+    (apply (mnewop_up sr1); [done|done|]); (apply (mnewop_up sr0); [done|apply kdom_snoc|]).
   - by apply ogen_add_new.
-  - apply ogen_rm_new_contains. by apply HP.
-  - apply ogen_rm_new_read. by apply HP.
+  - apply ogen_rm_new_contains; [apply (HU1 k1)|by apply HP].
+  - apply ogen_rm_new_read; [apply (HU1 k1)|by apply HP].
 Qed.
 Theorem map2_refine_nk' (H : list (oprec op2)) : m2hist_ok_nk H →
   ∀ (s : map2) (K : gset nat), m2reach_nk H s K → s = map2_spec_nk H K.
@@ -249,23 +269,29 @@ Notation m3reach_nk := (reach mnew (mapply (map_valops (map_valops orswot_valops
 Notation m3hist_ok_nk := (hist_ok mnew (mapply (map_valops (map_valops orswot_valops)))
                             (mmerge (map_valops (map_valops orswot_valops))) m3gen_nk adm_per_actor True).
 
-Lemma m3gen_nk_new U os a c o : muniv sr2 U → gside U os →
-  m3gen_nk (mspec_nk_of sr2 os) a c = Some o → ∃ d, mnewop sr2 U d o.
+Lemma m3gen_nk_new U os a c o : muniv sr2 (λ _, True) U → gside U os →
+  m3gen_nk (mspec_nk_of sr2 os) a c = Some o → ∃ d, mnewop sr2 (λ _, True) U d o.
 Proof.
   intros HU HS Hgen. unfold m3gen_nk in Hgen.
   set (ctx := derive_add_ctx (mread_ctx (mspec_nk_of sr2 os)) a) in *.
   assert (0 < dcounter (ac_dot ctx)) as Hp by apply derive_add_dot_pos.
+  assert (∀ k1, muniv sr1 (kdom U k1) (mproj U k1)) as HU1 by apply HU.
+  assert (∀ k1, gside (mproj U k1) (mproj os k1)) as HS1.
+  { intros k1. apply mside_gside. by apply (mside_proj sr2 _ U HU). }
+  assert (∀ k1 k2, muniv sr0 (kdom (mproj U k1) k2) (mproj (mproj U k1) k2)) as HU2 by (intros k1; apply (HU1 k1)).
+  assert (∀ k1 k2, gside (mproj (mproj U k1) k2) (mproj (mproj os k1) k2)) as HS2.
+  { intros k1 k2. apply mside_gside. by apply (mside_proj sr1 _ _ (HU1 k1)). }
   assert (∀ k1 k2 k3, sside odot (mproj (mproj (mproj U k1) k2) k3) (mproj (mproj (mproj os k1) k2) k3)) as HP.
-  { intros k1 k2 k3. apply (gside_proj sr0); [apply HU|]. apply mside_gside.
-    apply (gside_proj sr1); [apply HU|]. apply mside_gside. by apply (gside_proj sr2). }
+  { intros k1 k2 k3. by apply (mside_proj sr0 _ _ (HU2 k1 k2)). }
   destruct c as [k1 k2 k3 ms|k1 k2 k3 ms [m'|]]; cbn [m3_cmd mgen] in Hgen; injection Hgen as <-;
     exists (ac_dot ctx); unfold mupdate; fold ctx; cbn beta;
     rewrite ?(mspec_nested sr2); change (vspec sr2) with (mspec_nk_of sr1);
     rewrite ?(mspec_nested sr1); change (vspec sr1) with (mspec_nk_of sr0); rewrite ?(mspec_nested sr0);
-    (split; [done|split; [done|]]); (split; [done|split; [done|]]); (split; [done|split; [done|]]).
+    (apply (mnewop_up sr2); [done|done|]); (apply (mnewop_up sr1); [done|apply kdom_snoc|]);
+    (apply (mnewop_up sr0); [done|apply kdom_snoc|]).
   - by apply ogen_add_new.
-  - apply ogen_rm_new_contains. by apply HP.
-  - apply ogen_rm_new_read. by apply HP.
+  - apply ogen_rm_new_contains; [apply (HU2 k1 k2)|by apply HP].
+  - apply ogen_rm_new_read; [apply (HU2 k1 k2)|by apply HP].
 Qed.
 
 (** * The theorem at depth 3 *)
@@ -395,7 +421,7 @@ Section member3.
     pose proof (sr_hist_wf sr2 m3gen_nk m3_cmd (λ _ _ _ _ E, E) m3gen_nk_new H Hok) as [HH HU].
     pose proof (sr_known_side sr2 m3gen_nk m3_cmd (λ _ _ _ _ E, E) m3gen_nk_new H Hok s K Hr) as HS.
     set (os := known_ops H K) in *.
-    assert (mtagged sr2 os) as Hs by exact (mside_tagged sr2 _ HU os HS).
+    assert (mtagged sr2 os) as Hs by exact (mside_tagged sr2 _ _ HU os HS).
     set (p := mproj (mproj (mproj os k1) k2) k3).
     assert (∀ o, o ∈ p ↔ ∃ d, MUp d k1 (MUp d k2 (MUp d k3 o)) ∈ os) as Hpin
       by (intros o; by apply elem_of_mproj3).
@@ -559,7 +585,7 @@ Print Assumptions sr2.
 Print Assumptions sr3.
 Print Assumptions muniv_nk_univ.
 Print Assumptions nk_univ_muniv.
-Print Assumptions muniv_n2_univ.
+Print Assumptions n2_univ_muniv.
 Print Assumptions nk_apply_fresh'.
 Print Assumptions nk_merge'.
 Print Assumptions n2_apply_fresh'.
